@@ -1381,22 +1381,34 @@ func (e *Entry) Find(name string) *Entry {
 			switch part {
 			case "input":
 				if e.RPC.Input == nil {
+					// An rpc or action always has an input, even
+					// if the source does not spell it out.
 					e.RPC.Input = &Entry{
-						Name: "input",
-						Kind: InputEntry,
-						Dir:  make(map[string]*Entry),
+						Parent: e,
+						Node:   e.Node,
+						Name:   "input",
+						Kind:   InputEntry,
+						Dir:    make(map[string]*Entry),
+						Extra:  map[string][]interface{}{},
 					}
 				}
 				e = e.RPC.Input
 			case "output":
 				if e.RPC.Output == nil {
 					e.RPC.Output = &Entry{
-						Name: "output",
-						Kind: OutputEntry,
-						Dir:  make(map[string]*Entry),
+						Parent: e,
+						Node:   e.Node,
+						Name:   "output",
+						Kind:   OutputEntry,
+						Dir:    make(map[string]*Entry),
+						Extra:  map[string][]interface{}{},
 					}
 				}
 				e = e.RPC.Output
+			default:
+				// The only children of an rpc or action are its
+				// input and output.
+				return nil
 			}
 		default:
 			_, part = getPrefix(part)
